@@ -225,6 +225,7 @@ func (memPool *MemPool) Conflicting(tx *wire.MsgTx) []bitcoin.Hash32 {
 	defer memPool.mutex.Unlock()
 
 	result := make([]bitcoin.Hash32, 0, 1)
+	txid := tx.TxHash()
 	// Check for conflicting inputs
 	for _, input := range tx.TxIn {
 		if list, exists := memPool.inputs[*input.PreviousOutPoint.OutpointHash()]; exists {
@@ -232,6 +233,9 @@ func (memPool *MemPool) Conflicting(tx *wire.MsgTx) []bitcoin.Hash32 {
 			spenders := make([]bitcoin.Hash32, len(list))
 			copy(spenders, list)
 			for _, hash := range spenders {
+				if hash.Equal(txid) {
+					continue // The tx itself is still in the mempool. It doesn't conflict with itself.
+				}
 				result = append(result, hash)
 				memPool.removeTransaction(hash)
 			}
